@@ -1,6 +1,7 @@
 SPECIFICATION Spec
 CONSTANT Mode = "fixed"
 CONSTANT IntoMode = "ignore_compact"
+CONSTANT EncMode = "faithful"
 CONSTANT Tier = "quick"
 INVARIANT LayoutRoundTrip
 INVARIANT IndexInjective
